@@ -1,7 +1,7 @@
 (** Types of the table values that tools/fragments_run.py extracts from the orchestration sources
     (libcst_transformer.py, regex_transformer.py, xml_transformer.py, base_codemod.py, context.py, codemodder.py,
     dependency_management/*_writer.py). *)
-From CM Require Export Base.Str.
+From CM Require Export Base.Str Base.Types_Diff.
 
 (** The guards of a transformer pipeline's [apply], in source order.  Which of them are present is what the
     orchestration model depends on; an order other than the canonical one is rejected by the translator. *)
@@ -47,6 +47,7 @@ Record run_tables := {
   t_regex  : list guard;
   t_xml    : list guard;
   t_writers : list (skind * bool);   (* writer kind -> its file write is guarded by `if not dry_run` *)
+  t_diff : diff_from;                (* libcst pipeline: old side of the reported diff (Tables.diff_source, fragment libcst_apply_diff) *)
 }.
 Inductive add_failure_form :=
 | AllFindingsUnfixedLine0.   (* failures.append(file); add_unfixed_findings(get_all_findings(), reason, 0) *)
